@@ -193,6 +193,20 @@ def call_gen(a):
                 getattr(mod, func)(cell, smin, 0.5 * smax, output_stl=ostl, sgno=1)
         except Exception:
             pass
+        # the generator may return ANY numbers: every few calls the projection vector drawn for the de-duplication has two components
+        # that agree to 2e-9 (relative) - a legal draw for which the projections of (h,k,l) and (k,h,l) differ by 1e-9 only; exact
+        # comparison of the projections keeps them apart, a rounded or tolerance-based one merges them
+        real_rand = np.random.rand
+        if (npseed // 11) % 4 == 0:
+            base = [0.6180339887498949, 0.6180339887498949 * (1 + 2e-9), 0.3141592653589793]
+            kperm = (npseed // 44) % 3
+            vec = np.array([base[(j + kperm) % 3] for j in range(3)])
+
+            def rand_(*shape):
+                if shape == (3,):
+                    return vec.copy()
+                return real_rand(*shape)
+            np.random.rand = rand_
         # the flag as callers produce it: a Python bool, a numpy bool (the result of a comparison), 0 / 1
         flag = [ostl, np.bool_(ostl), int(ostl), ostl][(npseed // 5) % 4]
         H = getattr(mod, func)(cell, smin, smax, output_stl=flag, **kw)
@@ -200,6 +214,10 @@ def call_gen(a):
     except Exception as ex:
         return "EXC " + repr(ex)
     finally:
+        try:
+            np.random.rand = real_rand
+        except NameError:
+            pass
         np.random.set_state(st)
 
 
